@@ -4,30 +4,48 @@
   Model: Model/ResultTypes.lean (generator), Model/Marks.lean (document as sent), Spec/Pyd.lean (pydantic),
   Spec/Exec.lean (executor), Spec/Validate.lean (validity); the Boolean pipeline statement `claimB` is in Model/Claim01.lean.
   This file holds statements and final proofs; lemmas are in Proofs/ResultLeaf.lean, Proofs/C01Plain*.lean,
-  Proofs/C01Abs*.lean, Proofs/C01Mix*.lean, Proofs/C01Bridge*.lean.
+  Proofs/C01Abs*.lean, Proofs/C01Mix*.lean, Proofs/C01Unp*.lean, Proofs/C01Bridge*.lean; the decidable region predicates of the pipeline theorems
+  are collected in Proofs/C01Regions.lean, C01RegionsUnp.lean (the compiled driver evaluates them on every sampled case: op `regions`).
 
   WHAT IS PROVED (kernel-checked, every input of the class, no bound on depth / width / list lengths):
     * `ann_accepts_conformant`: leaf-based field types, every wrapper nesting.
     * `object_selection_roundtrip` (class level) and `C01_partial_plain` (pipeline, `claimB`): PLAIN documents — fields only
       (leaf- or object-typed, aliases, `@skip/@include`), no fragments, no `__typename`; region = `PlainInput`.
-    * `abstract_position_roundtrip` (class level), `interface_position_partition`, `union_position_partition`, and
-      `C01_partial_abstract` (pipeline, `claimB`): documents WITHOUT NAMED FRAGMENTS whose fields may be of object, INTERFACE or
-      UNION type, with typed inline fragments (content = fields) and `__typename`; one class per variant, typename literals that
-      partition the possible types, automatic `__typename` marks threaded over the operations; region = `AbsInput`.
+    * `abstract_position_roundtrip` (class level; `_nofrags`: the statement without fragment definitions),
+      `interface_position_partition`, `union_position_partition`, and `C01_partial_abstract` (pipeline, `claimB`): documents
+      WITHOUT NAMED FRAGMENTS whose fields may be of object, INTERFACE or UNION type, with typed inline fragments (content =
+      fields) and `__typename`; one class per variant, typename literals that partition the possible types, automatic
+      `__typename` marks threaded over the operations; region = `AbsInput`.
     * `mixin_fragments_roundtrip` (class level) and `C01_partial_mixin` (pipeline, `claimB`): plain documents WITH NAMED
       FRAGMENTS USED AS MIXINS (a fragment on exactly the object type of the selection set, no inline fragment inside):
       inheritance from the fragment classes, fragments module, to any nesting depth; region = `MixInput`.
-    * `C01_full_false`, `F3…F9_fails_in_model`: the property is false on the pinned tree inside the finding regions.
+    * `C01_partial_mixabs` (pipeline, `claimB`; class level = `abstract_position_roundtrip`, whose region `C01Abs.AbsOK` was
+      generalised): MIXINS COMBINED WITH ABSTRACT POSITIONS in one document — the abstract tier extended by spreads of named
+      fragments wherever the class the spread lands in is on exactly the OBJECT type the fragment is defined on: directly in
+      an object-typed selection set, or inside an inline fragment on that object type at an interface / union position
+      (`node { id ... on User { ...UF } }`); fragment definitions as in the mixin tier; region = `MixAbsInput` ⊇ `AbsInput`.
+    * `unpacked_fragments_roundtrip` (class level) and `C01_partial_unpacked` (pipeline, `claimB`): plain documents with named
+      fragments ON AN INTERFACE spread in selection sets on OBJECT types implementing it — the generator UNPACKS them (their
+      fields, and those of the fragments they spread, are merged into the class); by reduction to the plain tier on the inlined
+      document (`C01Unp.inl`, `C01Unp.respOK_inl`); region = `UnpInput`.
+    * `C01_full_false`, `F3…F9_fails_in_model`, `F12_fails_in_model`: the property is false on the pinned tree inside the
+      finding regions.
   WHAT IS STATED BUT NOT PROVED (`C01_partial_statement`; covered by correspondence + oracle only):
-    * named fragments that the generator UNPACKS (a fragment on another type than the position: on an interface at an object
-      position, on an object at an abstract position, a fragment containing inline fragments), and mixins COMBINED with
-      abstract positions or inline fragments in one document (the two tiers are separate regions);
-    * inside the tiers, what their predicates exclude: the same response key reached twice in one class
-      (`node { id ... on User { id } }`, `{ ...F id }` with `id` in `F`), `__typename` inside an inline fragment, nested inline
-      fragments, configured custom scalars, `@mixin`, covariant field types in implementing objects;
-    * inputs outside the explicit decidable side conditions `schemaOK`, `NoShadowedImport`, `NoCondTypename` — each of these is
-      a DEFECT REGION found while proving (see the comments at their definitions in Proofs/C01Bridge*.lean), not yet a trigger
-      of Model/Triggers01.lean; until it is, `C01_partial_statement` is false as stated (witness reported to the owner).
+    * unpacked fragments COMBINED with mixins or abstract positions (`UnpInput` is a tier over the plain one), fragments that
+      are unpacked because they contain inline fragments, fragments used as mixins of a class on an INTERFACE, spreads at the top
+      level of an abstract position (`node { ...UserFrag }`: a variant class per fragment type);
+    * inside the tiers, what their predicates exclude: the same response key reached twice in one class — proved in the
+      abstract / mixabs tiers for LEAF selections of the same field (`node { id ... on User { id } }`, `{ ...F id }` with `id` in
+      `F`: `C01Abs.dupOK`), still excluded in the plain / mixin / unpacked tiers and inside ONE fragment definition —,
+      `__typename` inside an inline fragment or a fragment definition, nested inline fragments, configured custom scalars,
+      `@mixin`, covariant field types in implementing objects;
+    * inputs outside the explicit decidable side conditions `schemaOK`, `NoShadowedImport` (finding C01-F11 region) and, for the
+      fragment definitions of `MixAbsInput`, selection-set ids not shared with a marked operation position (`sidFree`; ids are
+      unique in a parsed document).
+  FOUND BY THE PROOFS (hypotheses the proofs forced, run against the real code, which violates the property there):
+    C01-F10 (`__typename @skip/@include`), C01-F11 (a name bound twice in a result module), C01-F12 (a fragment on an object type
+    met while the generator's root is an abstract type — forced by `C01_partial_mixabs`, whose region demands that a spread inside an
+    inline fragment is on that inline fragment's own type).
 -/
 import AriadneModel.Proofs.ResultLeaf
 import AriadneModel.Model.Triggers01
@@ -40,6 +58,8 @@ import AriadneModel.Proofs.C01Abs
 import AriadneModel.Proofs.C01BridgeAbs
 import AriadneModel.Proofs.C01AbsPartition
 import AriadneModel.Proofs.C01BridgeMix
+import AriadneModel.Proofs.C01BridgeMA
+import AriadneModel.Proofs.C01BridgeUnp
 
 set_option linter.unusedVariables false
 
@@ -208,6 +228,15 @@ def w9Resp : J := .obj [("node", .obj [("__typename", .str "Post"), ("id", .str 
 theorem F9_in_region : trigMixinAndUnpacked (run w9) = true := by decide +kernel
 theorem F9_fails_in_model : ValidInput w9 ∧ nodupKeys w9Resp = true ∧ claimB w9 0 w9Resp = false := by decide +kernel
 
+/-- F12 (found by the proof of `C01_partial_mixabs`, whose region demands that a spread inside an inline fragment is on the very
+    type of that inline fragment): `query Q { me { ... on Node { ...UF } } }  fragment UF on User { name }` — below the inline
+    fragment the generator resolves with root `Node`, where the fragment on the object type `User` is dropped -/
+def w12 : Input := mkInp [mkF "UF" "User" 5 [fld "name"]]
+  ([fld "me" 2 [.inline (some "Node") [] 3 [.spread "UF" []]]])
+def w12Resp : J := .obj [("me", .obj [("name", .str "n")])]
+theorem F12_in_region : trigObjectInAbstract w12 (run w12) = true := by decide +kernel
+theorem F12_fails_in_model : ValidInput w12 ∧ nodupKeys w12Resp = true ∧ claimB w12 0 w12Resp = false := by decide +kernel
+
 /-! Non-vacuity of the partial statement: a supported input on which the claim holds for a non-trivial answer
     (interface position, inline fragments on two members, nullable list of non-null objects). -/
 def wOk : Input := mkInp []
@@ -255,20 +284,49 @@ contains the runtime type, and dumped back.  Hypothesis: the decidable `C01Abs.A
 Proofs/C01Abs.lean).  Non-vacuity: `C01Abs.axSel` (interface with two fragments, list of union, plain-in-abstract-in-plain). -/
 
 open Ariadne.C01Abs in
-theorem abstract_position_roundtrip (env : ResultTypes.Env) (cn tn : String) (sid : Nat) (sel : List Selection) (st : St)
+theorem abstract_position_roundtrip (env : ResultTypes.Env) (K F : Nat) (hfr : C01Mix.FragsOK env K) (cn tn : String) (sid : Nat)
+    (sel : List Selection) (st : St)
     (h : AbsOK env cn tn sid sel st = true) :
     ∃ classes : List ClassDecl,
       (∀ fuel, agfuel sel ≤ fuel →
         ∃ st', parseTypeDefinition env fuel cn tn sid sel false [] [] st = .ok (classes, st') ∧
           ∀ m, m ∈ st'.marks ↔ m ∈ sentMarks env cn tn sel st) ∧
       classes.head?.map (·.name) = some cn ∧
-      (∀ (penv : Pyd.Env), C01Plain.PenvOK env penv classes →
-        ∀ (efuel : Nat), agfuel sel ≤ efuel →
-        ∀ (j : J), Exec.respOK env.schema [] efuel tn (Marks.applySels (sentMarks env cn tn sel st) sel) j = true →
+      (∀ (penv : Pyd.Env), GH env penv K F → (∀ c ∈ classes, penv.class? c.name = some c) →
+        ∀ (efuel : Nat), agfuel sel + K ≤ efuel →
+        ∀ (j : J), Exec.respOK env.schema env.frags efuel tn (Marks.applySels (sentMarks env cn tn sel st) sel) j = true →
         nodupKeys j = true →
-        ∀ vfuel, avneed env cn tn sel + 4 ≤ vfuel →
+        ∀ vfuel, avneed env cn tn sel + 4 + F ≤ vfuel →
           ∃ v, Pyd.validate penv vfuel (.cls cn) j = .ok v ∧ J.eqv (Pyd.dump v) j = true) :=
-  C01_abs env cn tn sid sel st h
+  C01_abs env K F hfr cn tn sid sel st h
+
+/-- the same without fragment definitions (the statement as it read before the tier was extended by mixin spreads):
+    `PenvOK` = the environment agrees with the schema on enums, knows the classes, has no class `BaseModel` -/
+theorem abstract_position_roundtrip_nofrags (env : ResultTypes.Env) (hfr0 : env.frags = []) (cn tn : String) (sid : Nat)
+    (sel : List Selection) (st : St) (h : C01Abs.AbsOK env cn tn sid sel st = true) :
+    ∃ classes : List ClassDecl,
+      (∀ fuel, C01Abs.agfuel sel ≤ fuel →
+        ∃ st', parseTypeDefinition env fuel cn tn sid sel false [] [] st = .ok (classes, st') ∧
+          ∀ m, m ∈ st'.marks ↔ m ∈ C01Abs.sentMarks env cn tn sel st) ∧
+      classes.head?.map (·.name) = some cn ∧
+      (∀ (penv : Pyd.Env), C01Plain.PenvOK env penv classes →
+        ∀ (efuel : Nat), C01Abs.agfuel sel ≤ efuel →
+        ∀ (j : J), Exec.respOK env.schema [] efuel tn (Marks.applySels (C01Abs.sentMarks env cn tn sel st) sel) j = true →
+        nodupKeys j = true →
+        ∀ vfuel, C01Abs.avneed env cn tn sel + 4 ≤ vfuel →
+          ∃ v, Pyd.validate penv vfuel (.cls cn) j = .ok v ∧ J.eqv (Pyd.dump v) j = true) := by
+  have hfr : C01Mix.FragsOK env 0 := by intro f hf; rw [hfr0] at hf; cases hf
+  obtain ⟨classes, h1, h2, h3⟩ := C01Abs.C01_abs env 0 0 hfr cn tn sid sel st h
+  refine ⟨classes, h1, h2, fun penv hp efuel hef j hresp hj vfuel hv => ?_⟩
+  have hne : penv.classes ≠ [] := by
+    intro hc
+    cases hcl : classes with
+    | nil => rw [hcl] at h2; simp at h2
+    | cons c cs =>
+      have := hp.has c (by rw [hcl]; exact List.mem_cons_self)
+      simp [Pyd.Env.class?, hc] at this
+  exact h3 penv (C01Abs.GH.of_nofrags env penv hfr0 hp.agrees hp.noBaseModel hne) hp.has efuel (by omega) j
+    (by rw [hfr0]; exact hresp) hj vfuel (by omega)
 
 /-- `abstract_position_discriminates`, part "the literals partition the possible types" — interface position `n` (classes
     prefixed `C`) whose sub-selection has inline fragments on OBJECT types: a possible type `rt` is in the `typename__` literal
@@ -368,8 +426,9 @@ theorem mixin_fragments_roundtrip (env : ResultTypes.Env) (K : Nat) (hfr : Frags
         ∃ v, Pyd.validate penv vfuel (.cls cn) j = .ok v ∧ J.eqv (Pyd.dump v) j = true) := by
   refine ⟨fun fuel hf => ?_, fun penv ha hbm hcls hF hK efuel hef j hresp hj vfuel hv =>
     mix_roundtrip env K hfr cn tn sel h penv ha hbm hcls hF hK efuel hef j hresp hj vfuel hv⟩
-  obtain ⟨st', h1, _, h3, h4⟩ := mix_generation env K hfr cn tn sid sel st h hmarks hnd hfresh fuel hf
-  exact ⟨st', h1, h3, h4⟩
+  obtain ⟨st', h1, _, h3, h4⟩ := mix_generation env K hfr cn tn sid sel st h (by rw [hmarks]; rfl)
+    (by rw [hmarks]; exact sidFree_nil _) hnd hfresh fuel hf
+  exact ⟨st', h1, by rw [h3, hmarks], h4⟩
 
 theorem C01_partial_mixin : ∀ (inp : Input) (k : Nat) (j : J),
     ValidInput inp → MixInput inp → nodupKeys j = true → claimB inp k j = true :=
@@ -381,6 +440,86 @@ example : ValidInput mxInp ∧ MixInput mxInp ∧ nodupKeys mxResp = true
     ∧ (fragModule mxInp.env).map (fun c => (c.name, c.bases)) = [("UF", ["BaseModel"]), ("UG", ["UF"]), ("UGFriends", ["UF"])]
     ∧ Exec.respOK mxSchema mxInp.env.frags execFuel "Query" [.field none "me" [] 2 [.spread "UG" []]] mxResp = true
     ∧ claimB mxInp 0 mxResp = true := mxInp_nonvacuous
+
+
+/-! ### Mixins COMBINED with abstract positions, proved (Proofs/C01Abs*.lean generalised, Proofs/C01BridgeMA.lean)
+
+The abstract-positions tier and the mixin tier compose: the region of the abstract tier (`C01Abs.aSel1`) now also admits a spread
+`...G` of a named fragment `G` wherever the class it lands in is on exactly the OBJECT type `G` is defined on — directly in an
+object-typed selection set (`me { ...UF pet { id } }`, `author { ...UG }` below an inline fragment), or inside an inline fragment
+on that object type at an interface / union position (`node { id ... on User { ...UF } }`) — while the fragment definitions are
+those of the mixin tier (`C01Mix.fragOK`: plain content, further mixin spreads, any depth).  The class then INHERITS from the
+fragment's class and declares its own fields, among them `typename__: Literal[..]` and the discriminated unions of its abstract
+fields.  The class-level theorem is `abstract_position_roundtrip` above (one induction over selections, variants and — through
+`C01Mix.val_spec` — fragment classes); on the pipeline: the operations in order with the marks threaded, the fragments module
+= classes of ALL fragment definitions generated with the accumulated marks (which never touch a fragment: `C01Mix.sidFree`),
+nothing unpacked, the fragments sent as written.  Region `MixAbsInput` (decidable; header of Proofs/C01BridgeMA.lean).
+`AbsInput` is the special case without fragment definitions; `MixInput` documents whose operations satisfy `AbsOK` are covered too. -/
+
+theorem C01_partial_mixabs : ∀ (inp : Input) (k : Nat) (j : J),
+    ValidInput inp → MixAbsInput inp → nodupKeys j = true → claimB inp k j = true :=
+  fun inp k j _ hp hj => claimB_mixabs inp k j hp hj
+
+/-- non-vacuity (`maInp`, Proofs/C01BridgeMA.lean):
+    `query Q { node { id ... on User { ...UF } ... on Post { title author { ...UG } } } me { ...UF pet { __typename id } } }`,
+    `query R { again: node { ... on Post { author { ...UG pet { id } } } } }`,
+    `fragment UF on User { name friends { ...UG } }`, `fragment UG on User { id }` — outside every finding region -/
+example : ValidInput maInp ∧ MixAbsInput maInp ∧ Supported_01 maInp ∧ nodupKeys maResp = true
+    ∧ marksAfter ((run maInp).ops.take 2) = [2, 21, 24]
+    ∧ Exec.respOK maSchema maInp.env.frags execFuel "Query" (Marks.applySels [2] maSel) maResp = true
+    ∧ claimB maInp 0 maResp = true :=
+  ⟨maInp_nonvacuous.1, maInp_nonvacuous.2.1, maInp_nonvacuous.2.2.1, maInp_nonvacuous.2.2.2.1,
+   maInp_nonvacuous.2.2.2.2.2.2.2.1, maInp_nonvacuous.2.2.2.2.2.2.2.2.1, maInp_nonvacuous.2.2.2.2.2.2.2.2.2⟩
+
+
+
+/-- non-vacuity with response keys reached SEVERAL times (`maDupInp`): `query Q { node { id ... on User { id ...UF } } me { ...UF name } }`,
+    `fragment UF on User { id name }` — the class `QNodeUser(UF)` declares `id` twice and inherits it a third time -/
+example : ValidInput maDupInp ∧ MixAbsInput maDupInp ∧ Supported_01 maDupInp ∧ nodupKeys maDupResp = true
+    ∧ claimB maDupInp 0 maDupResp = true :=
+  ⟨maDupInp_nonvacuous.1, maDupInp_nonvacuous.2.1, maDupInp_nonvacuous.2.2.1, maDupInp_nonvacuous.2.2.2.1,
+   maDupInp_nonvacuous.2.2.2.2.2.2⟩
+
+/-! ### Named fragments that the generator UNPACKS, proved (Proofs/C01Unp*.lean, C01BridgeUnp.lean)
+
+The plain tier extended by spreads `...F` of a fragment defined on an INTERFACE, in a selection set evaluated on an OBJECT type that
+implements the interface: `_unpack_fragment` answers "unpack", `_resolve_selection_set` resolves `F`'s selections with the SAME
+root, and the fields of `F` — and of the fragments `F` spreads, to any depth — are merged into the class of the selection set.
+`unpacked_fragments_roundtrip` (class level): generation returns the plain tier's classes of the INLINED document (`C01Unp.inl`),
+adds no mark, records every fragment met in `_unpacked_fragments`; every answer a conformant executor gives for the document WITH
+the spreads is an answer for the inlined document (`C01Unp.respOK_inl`: CollectFields applies the interface fragment to the
+implementing object), hence accepted and dumped back by the plain tier's theorem.  `C01_partial_unpacked`: the same on `claimB`
+(every fragment definition is unpacked by some operation, so `package.py` leaves its classes out of the fragments module; the
+document is sent as written).  Regions: `C01Unp.UnpOK`, `UnpInput` (decidable; headers of Proofs/C01Unp.lean, C01RegionsUnp.lean). -/
+
+open Ariadne.C01Unp in
+theorem unpacked_fragments_roundtrip (env : ResultTypes.Env) (k : Nat) (cn tn : String) (sid : Nat) (sel : List Selection) (st : St)
+    (h : UnpOK env k cn tn sid sel st = true) :
+    (∀ fuel, 2 * k + 2 ≤ fuel →
+      ∃ st', parseTypeDefinition env fuel cn tn sid sel false [] [] st = .ok (C01Plain.plainClasses env cn tn (inl env k sel), st') ∧
+        st'.marks = st.marks ∧ (∀ n ∈ reach env k sel, n ∈ st'.unpacked)) ∧
+    (∀ (penv : Pyd.Env), C01Plain.PenvOK env penv (C01Plain.plainClasses env cn tn (inl env k sel)) →
+      ∀ (efuel : Nat), k ≤ efuel →
+      ∀ (j : J), Exec.respOK env.schema env.frags efuel tn sel j = true → nodupKeys j = true →
+      ∀ vfuel, C01Plain.vneed env tn (inl env k sel) + 1 ≤ vfuel →
+        ∃ v, Pyd.validate penv vfuel (.cls cn) j = .ok v ∧ J.eqv (Pyd.dump v) j = true) := by
+  refine ⟨fun fuel hf => ?_, fun penv hp efuel hk j hresp hj vfuel hv =>
+    unp_roundtrip env k cn tn sid sel st h penv hp efuel hk j hresp hj vfuel hv⟩
+  obtain ⟨st', h1, _, h3, _, h5⟩ := unp_generation env k cn tn sid sel st h [] fuel hf
+  exact ⟨st', h1, h3, h5⟩
+
+theorem C01_partial_unpacked : ∀ (inp : Input) (k : Nat) (j : J),
+    ValidInput inp → UnpInput inp → nodupKeys j = true → claimB inp k j = true :=
+  fun inp k j _ hp hj => claimB_unp inp k j hp hj
+
+/-- non-vacuity (`uxInp`, Proofs/C01BridgeUnp.lean): `query Q { me { ...NF name bestFriend { ...NM ...NG } } }`,
+    `query R { again: me { ...NM } }`, `fragment NF on Node { id ...NG }`, `fragment NG on Node { rev }`,
+    `fragment NM on Named { nick }` — outside every finding region; all three fragments are unpacked -/
+example : ValidInput uxInp ∧ UnpInput uxInp ∧ Supported_01 uxInp ∧ nodupKeys uxResp = true
+    ∧ Exec.respOK uxInp.env.schema uxInp.env.frags execFuel "Query" C01Unp.uxSel uxResp = true
+    ∧ claimB uxInp 0 uxResp = true :=
+  ⟨uxInp_nonvacuous.1, uxInp_nonvacuous.2.1, uxInp_nonvacuous.2.2.1, uxInp_nonvacuous.2.2.2.1,
+   uxInp_nonvacuous.2.2.2.2.2.1, uxInp_nonvacuous.2.2.2.2.2.2⟩
 
 
 end Ariadne.C01
